@@ -128,6 +128,17 @@ impl<TX: Clone> Recv<TX> {
         }
 
         let final_size = stream_frame.offset() + stream_frame.len() as u64;
+        if final_size > self.max_stream_data {
+            return Err(QuicError::new(
+                ErrorKind::FlowControl,
+                stream_frame.frame_type().into(),
+                format!(
+                    "{} final size {final_size} exceeds the stream data limit {}",
+                    stream_frame.stream_id(),
+                    self.max_stream_data
+                ),
+            ));
+        }
         let received_largest_offset = self.rcvbuf.largest_offset();
         if received_largest_offset > final_size {
             return Err(QuicError::new(
